@@ -530,7 +530,7 @@ fn cli_one(seed: u64, idx: u64, work: &Path, rep: &mut Report) {
                         rep.count("cli_prior_killed_patch_runs", 1);
                     }
                 }
-                let r0 = if prior == 5 { crate::c01::Run { code: Some(1), signal: None, stdout: String::new(), stderr: String::new() } } else { run_copia(&["patch", "basis0", "d0.delta", "-o", "out"], &dir) };
+                let r0 = if prior == 5 { crate::c01::Run { code: Some(1), signal: None, stdout: String::new(), stderr: String::new(), timed_out: false, spinning: false } } else { run_copia(&["patch", "basis0", "d0.delta", "-o", "out"], &dir) };
                 rep.count("cli_prior_patch_runs", 1);
                 if r0.code == Some(0) {
                     let out = std::fs::read(dir.join("out")).unwrap_or_default();
@@ -562,7 +562,12 @@ fn cli_one(seed: u64, idx: u64, work: &Path, rep: &mut Report) {
     }
     let ctx = json!({"seed": seed, "cli_case": idx, "faults": fc, "bs": d.block_size, "prior": prior_s});
     rep.count("cli_patch_runs", 1);
-    if r.code == Some(97) && crate::c01::valgrind() {
+    if r.spinning {
+        rep.violation("C05|cli|hang-spinning-without-progress", json!({"ctx": ctx}));
+    } else if r.timed_out {
+        rep.inconclusive += 1;
+        rep.count("cli_watchdog_expired_without_spin_evidence", 1);
+    } else if r.code == Some(97) && crate::c01::valgrind() {
         rep.violation("C05|cli|valgrind-memcheck-error", json!({"ctx": ctx, "stderr": r.stderr.chars().take(600).collect::<String>()}));
     } else if let Some(sig) = r.signal {
         let sigc = if bs_ok { "valid-bs" } else { "invalid-bs" };
